@@ -27,7 +27,7 @@ import (
 )
 
 var (
-	memfs    = afero.NewMemMapFs()
+	memfs    = newStrictFs()
 	initOnce sync.Once
 )
 
